@@ -269,6 +269,14 @@ NEAR_MISS = [
     # sections: documented only as documentation carriers -> confined to the type / a new docsection
     ('SECTION:fooobj', ['class[Obj]', 'docsection[fooobj]']), ('SECTION:foorec', ['record[Rec]', 'docsection[foorec]']),
     ('SECTION:misc', ['docsection[misc]']), ('SECTION:FooObj', ['class[Obj]', 'docsection[FooObj]']),
+    # sections of every type kind (a section documents Class/Interface/Record/Union; elsewhere it is a docsection)
+    ('SECTION:foosub', ['class[Sub]', 'docsection[foosub]']), ('SECTION:foohidden', ['class[Hidden]', 'docsection[foohidden]']),
+    ('SECTION:fooiface', ['interface[Iface]', 'docsection[fooiface]']),
+    ('SECTION:fooobjclass', ['record[ObjClass]', 'docsection[fooobjclass]']),
+    ('SECTION:fooifaceinterface', ['record[IfaceInterface]', 'docsection[fooifaceinterface]']),
+    ('SECTION:fooplain', ['record[Plain]', 'docsection[fooplain]']), ('SECTION:foouni', ['union[Uni]', 'docsection[foouni]']),
+    ('SECTION:fooenum', ['docsection[fooenum]']), ('SECTION:fooflags', ['docsection[fooflags]']),
+    ('SECTION:foocallback', ['docsection[foocallback]']), ('SECTION:fooalias', ['docsection[fooalias]']),
 ]
 
 # ------------------------------------------------------------------- GIR view ---
